@@ -1,715 +1,4 @@
-// GENERATED by bin/lib/c_derive.py from the definitions TLC emitted (spec/MC_DeriveModel.tla). Do not edit.
+//! One quarter of the generated corpus of C17.  `generated.rs` (next to Cargo.toml, git-ignored) is
+//! rendered by bin/lib/c_derive.py on every check run from the definitions TLC emitted.
 #![allow(dead_code, unused_imports, non_camel_case_types)]
-use avro_verif_harness::c17::{Runner, run_type};
-
-pub mod s03f5a7a843 {
-    use apache_avro::AvroSchema;
-    use serde::{Deserialize, Serialize};
-    use std::collections::HashMap;
-    #[derive(AvroSchema, Serialize, Deserialize)]
-    pub struct Rec {
-        #[avro(default = "{}")]
-        pub very_tasty: HashMap<String, i32>,
-        pub z42: i32,
-    }
-}
-
-pub mod s0beabe9377 {
-    use apache_avro::AvroSchema;
-    use serde::{Deserialize, Serialize};
-    use std::collections::HashMap;
-    #[derive(AvroSchema, Serialize, Deserialize)]
-    #[serde(rename_all = "kebab-case")]
-    pub enum Color {
-        Red,
-        DarkBlue,
-        Z42,
-    }
-}
-
-pub mod s13d3f5643b {
-    use apache_avro::AvroSchema;
-    use serde::{Deserialize, Serialize};
-    use std::collections::HashMap;
-    #[derive(AvroSchema, Serialize, Deserialize)]
-    pub struct A {
-        pub b: B,
-    }
-    #[derive(AvroSchema, Serialize, Deserialize)]
-    #[avro(namespace = "deep.ns")]
-    pub struct B {
-        pub x: Leaf,
-    }
-    #[derive(AvroSchema, Serialize, Deserialize)]
-    pub struct Leaf {
-        pub x: i32,
-    }
-}
-
-pub mod s1c3125a8b7 {
-    use apache_avro::AvroSchema;
-    use serde::{Deserialize, Serialize};
-    use std::collections::HashMap;
-    #[derive(AvroSchema, Serialize, Deserialize)]
-    #[serde(rename_all = "SCREAMING_SNAKE_CASE")]
-    pub struct Rec {
-        pub very_tasty: i32,
-        pub id: String,
-        pub z42: Option<i64>,
-    }
-}
-
-pub mod s1dbc3e93a7 {
-    use apache_avro::AvroSchema;
-    use serde::{Deserialize, Serialize};
-    use std::collections::HashMap;
-    #[derive(AvroSchema, Serialize, Deserialize)]
-    #[serde(rename_all = "PascalCase")]
-    pub enum Color {
-        Red,
-        DarkBlue,
-        Z42,
-    }
-}
-
-pub mod s20f9374d73 {
-    use apache_avro::AvroSchema;
-    use serde::{Deserialize, Serialize};
-    use std::collections::HashMap;
-    #[derive(AvroSchema, Serialize, Deserialize)]
-    #[serde(rename_all = "snake_case")]
-    pub enum Color {
-        Red,
-        DarkBlue,
-        Z42,
-    }
-}
-
-pub mod s26996e0f13 {
-    use apache_avro::AvroSchema;
-    use serde::{Deserialize, Serialize};
-    use std::collections::HashMap;
-    #[derive(AvroSchema, Serialize, Deserialize)]
-    pub struct T1 {
-        pub x: i32,
-        pub left: T3,
-        pub right: T2,
-    }
-    #[derive(AvroSchema, Serialize, Deserialize)]
-    pub struct T2 {
-        pub y: i32,
-    }
-    #[derive(AvroSchema, Serialize, Deserialize)]
-    pub struct T3 {
-        pub z42: i32,
-        pub item: T2,
-    }
-}
-
-pub mod s2a8efa7e03 {
-    use apache_avro::AvroSchema;
-    use serde::{Deserialize, Serialize};
-    use std::collections::HashMap;
-    #[derive(AvroSchema, Serialize, Deserialize)]
-    pub struct T1 {
-        pub x: i32,
-        pub left: Option<Box<T3>>,
-        pub right: T3,
-    }
-    #[derive(AvroSchema, Serialize, Deserialize)]
-    pub struct T2 {
-        pub y: i32,
-        pub one: Option<Box<T1>>,
-    }
-    #[derive(AvroSchema, Serialize, Deserialize)]
-    pub struct T3 {
-        pub z42: i32,
-        pub item: T2,
-    }
-}
-
-pub mod s2cdab97c93 {
-    use apache_avro::AvroSchema;
-    use serde::{Deserialize, Serialize};
-    use std::collections::HashMap;
-    #[derive(AvroSchema, Serialize, Deserialize)]
-    pub struct Outer {
-        pub a: Nothing,
-        pub id: i32,
-    }
-    #[derive(AvroSchema, Serialize, Deserialize)]
-    pub struct Nothing;
-}
-
-pub mod s2f2d6a0273 {
-    use apache_avro::AvroSchema;
-    use serde::{Deserialize, Serialize};
-    use std::collections::HashMap;
-    #[derive(AvroSchema, Serialize, Deserialize)]
-    pub struct A {
-        pub b: B,
-        pub c: C,
-    }
-    #[derive(AvroSchema, Serialize, Deserialize)]
-    pub struct B {
-        pub x: Leaf,
-    }
-    #[derive(AvroSchema, Serialize, Deserialize)]
-    pub struct C {
-        pub y: Leaf,
-    }
-    #[derive(AvroSchema, Serialize, Deserialize)]
-    pub struct Leaf {
-        pub x: i32,
-    }
-}
-
-pub mod s316feb95db {
-    use apache_avro::AvroSchema;
-    use serde::{Deserialize, Serialize};
-    use std::collections::HashMap;
-    #[derive(AvroSchema, Serialize, Deserialize)]
-    pub struct Outer {
-        pub a: Bare,
-        pub id: i32,
-    }
-    #[derive(AvroSchema, Serialize, Deserialize)]
-    #[avro(repr = "bare_union")]
-    pub enum Bare {
-        One,
-        Two(i32),
-        Item(String),
-        DarkBlue {
-            very_tasty: i64,
-        },
-    }
-}
-
-pub mod s39b046f0db {
-    use apache_avro::AvroSchema;
-    use serde::{Deserialize, Serialize};
-    use std::collections::HashMap;
-    #[derive(AvroSchema, Serialize, Deserialize)]
-    #[avro(doc = "Colours.", alias = "Hue")]
-    pub enum Color {
-        Red,
-        DarkBlue,
-        Z42,
-    }
-}
-
-pub mod s47735ef0af {
-    use apache_avro::AvroSchema;
-    use serde::{Deserialize, Serialize};
-    use std::collections::HashMap;
-    #[derive(AvroSchema, Serialize, Deserialize)]
-    pub struct Rec {
-        #[avro(default = false)]
-        pub very_tasty: Option<i32>,
-        pub z42: i32,
-    }
-}
-
-pub mod s52174fe3d3 {
-    use apache_avro::AvroSchema;
-    use serde::{Deserialize, Serialize};
-    use std::collections::HashMap;
-    #[derive(AvroSchema, Serialize, Deserialize)]
-    pub struct A {
-        pub left: Option<Leaf>,
-        pub right: Vec<Leaf>,
-        pub rest: HashMap<String, Leaf>,
-    }
-    #[derive(AvroSchema, Serialize, Deserialize)]
-    pub struct Leaf {
-        pub x: i32,
-    }
-}
-
-pub mod s5a3d77fdb7 {
-    use apache_avro::AvroSchema;
-    use serde::{Deserialize, Serialize};
-    use std::collections::HashMap;
-    #[derive(AvroSchema, Serialize, Deserialize)]
-    #[serde(rename_all = "snake_case")]
-    pub enum Shape {
-        One,
-        Two(i32),
-        MyItem(i32, String),
-        DarkBlue {
-            very_tasty: i64,
-            b: Option<String>,
-        },
-    }
-}
-
-pub mod s5c541c5ebb {
-    use apache_avro::AvroSchema;
-    use serde::{Deserialize, Serialize};
-    use std::collections::HashMap;
-    #[derive(AvroSchema, Serialize, Deserialize)]
-    pub struct Rec {
-        #[avro(default = "null")]
-        pub very_tasty: Option<i32>,
-        pub z42: i32,
-    }
-}
-
-pub mod s639c418857 {
-    use apache_avro::AvroSchema;
-    use serde::{Deserialize, Serialize};
-    use std::collections::HashMap;
-    #[derive(AvroSchema, Serialize, Deserialize)]
-    #[serde(rename_all = "SCREAMING_SNAKE_CASE")]
-    pub struct Rec {
-        #[serde(skip)]
-        pub very_tasty: i32,
-        pub z42: i32,
-    }
-}
-
-pub mod s666083784b {
-    use apache_avro::AvroSchema;
-    use serde::{Deserialize, Serialize};
-    use std::collections::HashMap;
-    #[derive(AvroSchema, Serialize, Deserialize)]
-    #[avro(doc = "A record.")]
-    pub struct Rec {
-        pub very_tasty: i32,
-        pub id: String,
-        pub z42: Option<i64>,
-    }
-}
-
-pub mod s67f2113267 {
-    use apache_avro::AvroSchema;
-    use serde::{Deserialize, Serialize};
-    use std::collections::HashMap;
-    #[derive(AvroSchema, Serialize, Deserialize)]
-    pub struct T1 {
-        pub x: i32,
-        pub left: Option<Box<T1>>,
-        pub right: Option<Box<T2>>,
-    }
-    #[derive(AvroSchema, Serialize, Deserialize)]
-    pub struct T2 {
-        pub y: i32,
-        pub one: Option<Box<T3>>,
-    }
-    #[derive(AvroSchema, Serialize, Deserialize)]
-    pub struct T3 {
-        pub z42: i32,
-        pub item: Option<Box<T1>>,
-    }
-}
-
-pub mod s7a2b3ac06b {
-    use apache_avro::AvroSchema;
-    use serde::{Deserialize, Serialize};
-    use std::collections::HashMap;
-    #[derive(AvroSchema, Serialize, Deserialize)]
-    #[serde(rename_all = "lowercase")]
-    pub enum Color {
-        Red,
-        DarkBlue,
-        Z42,
-    }
-}
-
-pub mod s8cf584aacb {
-    use apache_avro::AvroSchema;
-    use serde::{Deserialize, Serialize};
-    use std::collections::HashMap;
-    #[derive(AvroSchema, Serialize, Deserialize)]
-    #[serde(rename_all = "camelCase")]
-    pub struct Rec {
-        #[serde(skip)]
-        pub very_tasty: i32,
-        pub z42: i32,
-    }
-}
-
-pub mod s959c3a69bf {
-    use apache_avro::AvroSchema;
-    use serde::{Deserialize, Serialize};
-    use std::collections::HashMap;
-    #[derive(AvroSchema, Serialize, Deserialize)]
-    pub enum Shape {
-        One,
-        Two(i32),
-        MyItem(i32, String),
-        DarkBlue {
-            very_tasty: i64,
-            b: Option<String>,
-        },
-    }
-}
-
-pub mod s95cd7b5d9b {
-    use apache_avro::AvroSchema;
-    use serde::{Deserialize, Serialize};
-    use std::collections::HashMap;
-    #[derive(AvroSchema, Serialize, Deserialize)]
-    #[serde(rename_all = "SCREAMING_SNAKE_CASE")]
-    pub struct Rec {
-        #[serde(alias = "old_name")]
-        pub very_tasty: i32,
-        pub z42: i32,
-    }
-}
-
-pub mod s99756c4f3f {
-    use apache_avro::AvroSchema;
-    use serde::{Deserialize, Serialize};
-    use std::collections::HashMap;
-    #[derive(AvroSchema, Serialize, Deserialize)]
-    #[avro(repr = "bare_union")]
-    pub enum Bare {
-        #[serde(skip)]
-        One,
-        Two(i32),
-        Item(String),
-        DarkBlue {
-            very_tasty: i64,
-        },
-    }
-}
-
-pub mod sa174a7077b {
-    use apache_avro::AvroSchema;
-    use serde::{Deserialize, Serialize};
-    use std::collections::HashMap;
-    #[derive(AvroSchema, Serialize, Deserialize)]
-    pub enum Color {
-        #[serde(skip)]
-        Red,
-        DarkBlue,
-        Z42,
-    }
-}
-
-pub mod sa74269f2cb {
-    use apache_avro::AvroSchema;
-    use serde::{Deserialize, Serialize};
-    use std::collections::HashMap;
-    #[derive(AvroSchema, Serialize, Deserialize)]
-    #[serde(rename_all = "SCREAMING-KEBAB-CASE")]
-    pub enum Color {
-        Red,
-        DarkBlue,
-        Z42,
-    }
-}
-
-pub mod saa64846493 {
-    use apache_avro::AvroSchema;
-    use serde::{Deserialize, Serialize};
-    use std::collections::HashMap;
-    #[derive(AvroSchema, Serialize, Deserialize)]
-    pub struct Outer {
-        pub a: Box<Inner>,
-        pub id: i32,
-    }
-    #[derive(AvroSchema, Serialize, Deserialize)]
-    pub struct Inner {
-        pub x: i32,
-        pub kind: String,
-    }
-}
-
-pub mod sac8c0c8943 {
-    use apache_avro::AvroSchema;
-    use serde::{Deserialize, Serialize};
-    use std::collections::HashMap;
-    #[derive(AvroSchema, Serialize, Deserialize)]
-    #[serde(rename_all = "camelCase")]
-    #[avro(namespace = "ns")]
-    pub struct Rec {
-        pub very_tasty: i32,
-        pub id: String,
-        pub z42: Option<i64>,
-    }
-}
-
-pub mod sb0c4919fc7 {
-    use apache_avro::AvroSchema;
-    use serde::{Deserialize, Serialize};
-    use std::collections::HashMap;
-    #[derive(AvroSchema, Serialize, Deserialize)]
-    pub struct Rec {
-        #[avro(default = "-7")]
-        pub very_tasty: i64,
-        pub z42: i32,
-    }
-}
-
-pub mod sb3a4b9f567 {
-    use apache_avro::AvroSchema;
-    use serde::{Deserialize, Serialize};
-    use std::collections::HashMap;
-    #[derive(AvroSchema, Serialize, Deserialize)]
-    pub struct Rec {
-        #[serde(skip_serializing_if = "Option::is_none", default)]
-        #[avro(default = "null")]
-        pub very_tasty: Option<String>,
-        pub z42: i32,
-    }
-}
-
-pub mod sb430fd92df {
-    use apache_avro::AvroSchema;
-    use serde::{Deserialize, Serialize};
-    use std::collections::HashMap;
-    #[derive(AvroSchema, Serialize, Deserialize)]
-    #[avro(repr = "enum")]
-    pub enum Color {
-        Red,
-        DarkBlue,
-        Z42,
-    }
-}
-
-pub mod sb6d711d6f7 {
-    use apache_avro::AvroSchema;
-    use serde::{Deserialize, Serialize};
-    use std::collections::HashMap;
-    #[derive(AvroSchema, Serialize, Deserialize)]
-    pub struct Rec {
-        pub a: Vec<String>,
-        pub my_field: i32,
-    }
-}
-
-pub mod sb756865e63 {
-    use apache_avro::AvroSchema;
-    use serde::{Deserialize, Serialize};
-    use std::collections::HashMap;
-    #[derive(AvroSchema, Serialize, Deserialize)]
-    #[serde(rename = "Other")]
-    pub struct Rec {
-        pub very_tasty: i32,
-        pub id: String,
-        pub z42: Option<i64>,
-    }
-}
-
-pub mod sb9171cdf63 {
-    use apache_avro::AvroSchema;
-    use serde::{Deserialize, Serialize};
-    use std::collections::HashMap;
-    #[derive(AvroSchema, Serialize, Deserialize)]
-    #[serde(rename_all = "PascalCase")]
-    pub struct Rec {
-        #[serde(alias = "old_name")]
-        pub very_tasty: i32,
-        pub z42: i32,
-    }
-}
-
-pub mod sba37317e7b {
-    use apache_avro::AvroSchema;
-    use serde::{Deserialize, Serialize};
-    use std::collections::HashMap;
-    #[derive(AvroSchema, Serialize, Deserialize)]
-    pub struct A {
-        pub b: B,
-    }
-    #[derive(AvroSchema, Serialize, Deserialize)]
-    pub struct B {
-        pub c: Vec<C>,
-    }
-    #[derive(AvroSchema, Serialize, Deserialize)]
-    pub struct C {
-        pub kids: Option<Leaf>,
-    }
-    #[derive(AvroSchema, Serialize, Deserialize)]
-    pub struct Leaf {
-        pub x: i32,
-    }
-}
-
-pub mod sc93daaddf3 {
-    use apache_avro::AvroSchema;
-    use serde::{Deserialize, Serialize};
-    use std::collections::HashMap;
-    #[derive(AvroSchema, Serialize, Deserialize)]
-    #[avro(namespace = "ns.sub")]
-    pub struct Rec {
-        pub very_tasty: i32,
-        pub id: String,
-        pub z42: Option<i64>,
-    }
-}
-
-pub mod sc9f7d23ea3 {
-    use apache_avro::AvroSchema;
-    use serde::{Deserialize, Serialize};
-    use std::collections::HashMap;
-    #[derive(AvroSchema, Serialize, Deserialize)]
-    #[avro(namespace = "x", doc = "Doc", alias = "A1", alias = "A2")]
-    pub struct Rec {
-        pub very_tasty: i32,
-        pub id: String,
-        pub z42: Option<i64>,
-    }
-}
-
-pub mod sccaeb114c3 {
-    use apache_avro::AvroSchema;
-    use serde::{Deserialize, Serialize};
-    use std::collections::HashMap;
-    #[derive(AvroSchema, Serialize, Deserialize)]
-    #[serde(rename_all = "camelCase")]
-    pub struct Rec {
-        #[serde(rename = "renamed")]
-        pub very_tasty: i32,
-        pub z42: i32,
-    }
-}
-
-pub mod sd2ac90fd67 {
-    use apache_avro::AvroSchema;
-    use serde::{Deserialize, Serialize};
-    use std::collections::HashMap;
-    #[derive(AvroSchema, Serialize, Deserialize)]
-    pub struct Outer {
-        pub a: Pair,
-        pub id: i32,
-    }
-    #[derive(AvroSchema, Serialize, Deserialize)]
-    pub struct Pair(pub u16, pub String);
-}
-
-pub mod sd30719f48b {
-    use apache_avro::AvroSchema;
-    use serde::{Deserialize, Serialize};
-    use std::collections::HashMap;
-    #[derive(AvroSchema, Serialize, Deserialize)]
-    pub struct Rec {
-        pub a: Vec<u64>,
-        pub my_field: i32,
-    }
-}
-
-pub mod sdaeb5dbba3 {
-    use apache_avro::AvroSchema;
-    use serde::{Deserialize, Serialize};
-    use std::collections::HashMap;
-    #[derive(AvroSchema, Serialize, Deserialize)]
-    pub struct A {
-        pub kids: HashMap<String, A>,
-        pub next: Option<Box<A>>,
-    }
-}
-
-pub mod se67716ffc3 {
-    use apache_avro::AvroSchema;
-    use serde::{Deserialize, Serialize};
-    use std::collections::HashMap;
-    #[derive(AvroSchema, Serialize, Deserialize)]
-    pub enum Shape {
-        #[serde(skip)]
-        One,
-        Two(i32),
-        MyItem(i32, String),
-        DarkBlue {
-            very_tasty: i64,
-            b: Option<String>,
-        },
-    }
-}
-
-pub mod se7b0c793b7 {
-    use apache_avro::AvroSchema;
-    use serde::{Deserialize, Serialize};
-    use std::collections::HashMap;
-    #[derive(AvroSchema, Serialize, Deserialize)]
-    #[serde(rename = "Colour")]
-    #[avro(namespace = "ns")]
-    pub enum Color {
-        Red,
-        DarkBlue,
-        Z42,
-    }
-}
-
-pub mod seb5592ea83 {
-    use apache_avro::AvroSchema;
-    use serde::{Deserialize, Serialize};
-    use std::collections::HashMap;
-    #[derive(AvroSchema, Serialize, Deserialize)]
-    #[serde(rename_all = "camelCase")]
-    pub struct Rec {
-        pub very_tasty: i32,
-        pub id: String,
-        pub z42: Option<i64>,
-    }
-}
-
-pub mod sff35ecf5ab {
-    use apache_avro::AvroSchema;
-    use serde::{Deserialize, Serialize};
-    use std::collections::HashMap;
-    #[derive(AvroSchema, Serialize, Deserialize)]
-    pub struct A {
-        #[serde(flatten)]
-        pub rest: B,
-        pub left: Leaf,
-    }
-    #[derive(AvroSchema, Serialize, Deserialize)]
-    pub struct B {
-        pub y: Leaf,
-    }
-    #[derive(AvroSchema, Serialize, Deserialize)]
-    pub struct Leaf {
-        pub x: i32,
-    }
-}
-
-pub static REGISTRY: &[(&str, Runner)] = &[
-    ("s03f5a7a843", run_type::<s03f5a7a843::Rec> as Runner),
-    ("s0beabe9377", run_type::<s0beabe9377::Color> as Runner),
-    ("s13d3f5643b", run_type::<s13d3f5643b::A> as Runner),
-    ("s1c3125a8b7", run_type::<s1c3125a8b7::Rec> as Runner),
-    ("s1dbc3e93a7", run_type::<s1dbc3e93a7::Color> as Runner),
-    ("s20f9374d73", run_type::<s20f9374d73::Color> as Runner),
-    ("s26996e0f13", run_type::<s26996e0f13::T1> as Runner),
-    ("s2a8efa7e03", run_type::<s2a8efa7e03::T1> as Runner),
-    ("s2cdab97c93", run_type::<s2cdab97c93::Outer> as Runner),
-    ("s2f2d6a0273", run_type::<s2f2d6a0273::A> as Runner),
-    ("s316feb95db", run_type::<s316feb95db::Outer> as Runner),
-    ("s39b046f0db", run_type::<s39b046f0db::Color> as Runner),
-    ("s47735ef0af", run_type::<s47735ef0af::Rec> as Runner),
-    ("s52174fe3d3", run_type::<s52174fe3d3::A> as Runner),
-    ("s5a3d77fdb7", run_type::<s5a3d77fdb7::Shape> as Runner),
-    ("s5c541c5ebb", run_type::<s5c541c5ebb::Rec> as Runner),
-    ("s639c418857", run_type::<s639c418857::Rec> as Runner),
-    ("s666083784b", run_type::<s666083784b::Rec> as Runner),
-    ("s67f2113267", run_type::<s67f2113267::T1> as Runner),
-    ("s7a2b3ac06b", run_type::<s7a2b3ac06b::Color> as Runner),
-    ("s8cf584aacb", run_type::<s8cf584aacb::Rec> as Runner),
-    ("s959c3a69bf", run_type::<s959c3a69bf::Shape> as Runner),
-    ("s95cd7b5d9b", run_type::<s95cd7b5d9b::Rec> as Runner),
-    ("s99756c4f3f", run_type::<s99756c4f3f::Bare> as Runner),
-    ("sa174a7077b", run_type::<sa174a7077b::Color> as Runner),
-    ("sa74269f2cb", run_type::<sa74269f2cb::Color> as Runner),
-    ("saa64846493", run_type::<saa64846493::Outer> as Runner),
-    ("sac8c0c8943", run_type::<sac8c0c8943::Rec> as Runner),
-    ("sb0c4919fc7", run_type::<sb0c4919fc7::Rec> as Runner),
-    ("sb3a4b9f567", run_type::<sb3a4b9f567::Rec> as Runner),
-    ("sb430fd92df", run_type::<sb430fd92df::Color> as Runner),
-    ("sb6d711d6f7", run_type::<sb6d711d6f7::Rec> as Runner),
-    ("sb756865e63", run_type::<sb756865e63::Rec> as Runner),
-    ("sb9171cdf63", run_type::<sb9171cdf63::Rec> as Runner),
-    ("sba37317e7b", run_type::<sba37317e7b::A> as Runner),
-    ("sc93daaddf3", run_type::<sc93daaddf3::Rec> as Runner),
-    ("sc9f7d23ea3", run_type::<sc9f7d23ea3::Rec> as Runner),
-    ("sccaeb114c3", run_type::<sccaeb114c3::Rec> as Runner),
-    ("sd2ac90fd67", run_type::<sd2ac90fd67::Outer> as Runner),
-    ("sd30719f48b", run_type::<sd30719f48b::Rec> as Runner),
-    ("sdaeb5dbba3", run_type::<sdaeb5dbba3::A> as Runner),
-    ("se67716ffc3", run_type::<se67716ffc3::Shape> as Runner),
-    ("se7b0c793b7", run_type::<se7b0c793b7::Color> as Runner),
-    ("seb5592ea83", run_type::<seb5592ea83::Rec> as Runner),
-    ("sff35ecf5ab", run_type::<sff35ecf5ab::A> as Runner),
-];
+include!(concat!(env!("CARGO_MANIFEST_DIR"), "/generated.rs"));
